@@ -31,6 +31,30 @@ GUARD = "RTRLIB_VERIF"
 
 NCPU = os.cpu_count() or 4
 
+# children run in their own process groups (so a timeout can kill cbmc + /usr/bin/time together);
+# make sure they do not outlive the driver when it is terminated itself
+_CHILDREN = set()
+
+
+def _kill_children(*_a):
+    for p in list(_CHILDREN):
+        try:
+            os.killpg(p.pid, 9)
+        except Exception:
+            pass
+    if _a:
+        os._exit(143)
+
+
+import atexit
+import signal
+atexit.register(_kill_children)
+for _sig in (signal.SIGTERM, signal.SIGINT, signal.SIGHUP):
+    try:
+        signal.signal(_sig, _kill_children)
+    except Exception:
+        pass
+
 
 @dataclass
 class Job:
@@ -145,10 +169,9 @@ def build(job: Job, workdir: str) -> Tuple[Optional[str], str]:
         if p.returncode != 0:
             return None, log
         out = out2
-    if job.replace_calls:
-        out2 = out[:-3] + ".rc.gb"
-        cmd = ["goto-instrument", "--replace-calls",
-               ",".join("%s:%s" % (a, b) for a, b in job.replace_calls), out, out2]
+    for k, (a, b) in enumerate(job.replace_calls):
+        out2 = out[:-3] + ".rc%d.gb" % k
+        cmd = ["goto-instrument", "--replace-calls", "%s:%s" % (a, b), out, out2]
         p = subprocess.run(cmd, stdout=subprocess.PIPE, stderr=subprocess.STDOUT, text=True)
         log += "$ " + " ".join(cmd) + "\n" + p.stdout[-2000:]
         if p.returncode != 0 or not os.path.exists(out2):
@@ -253,6 +276,7 @@ def run_job(job: Job, workdir: str, keep_log_dir: Optional[str] = None) -> JobRe
     with open(outp, "w") as fo:
         try:
             p = subprocess.Popen(tcmd, stdout=fo, stderr=subprocess.STDOUT, preexec_fn=_limit(job.mem_gb))
+            _CHILDREN.add(p)
             try:
                 p.wait(timeout=job.timeout)
             except subprocess.TimeoutExpired:
@@ -262,6 +286,7 @@ def run_job(job: Job, workdir: str, keep_log_dir: Optional[str] = None) -> JobRe
                     p.kill()
                 p.wait()
                 verdict_detail = "timeout after %ds" % job.timeout
+            _CHILDREN.discard(p)
         except Exception as e:  # pragma: no cover
             verdict_detail = "spawn error %r" % (e,)
     txt = open(outp, errors="replace").read()
